@@ -322,4 +322,13 @@ def build_collection(I: Interp, n, args, kwargs, fr: Frame, node=None):
         st.heap["llen"] = z3.Store(st.arr("llen"), r, seq.n)
         st.heap["lel"] = z3.Store(st.arr("lel"), r, z3.Lambda([iv], it.t))
         return SV(smt.mk_ref(r), T.LIST(it.ty))
+    if n == "tuple" and isinstance(src, SV) and T.strip_opt(src.ty).k == "list":
+        # an immutable value determined by the list's content (ghost content id): equal contents give equal tuples, which is
+        # what dictionary look-ups with tuple keys need; element access on such a tuple is not modelled
+        F = z3.Function("tuple_of", Val, Val)
+        sid = z3.Select(st.arr("f:$seq"), smt.rid(src.t))
+        v = F(sid)
+        st.assume(z3.And(smt.is_ref(v), smt.rid(v) < -2000000000))
+        st.log.append("tuple(list) modelled as an opaque immutable value that is a function of the list's content")
+        return SV(v, T.EXT("ghost"))
     raise Refuse(f"{n}() of symbolic iterable")
